@@ -115,9 +115,11 @@ fn variants(s: &Sprite, plan: &Plan, enc: &Encoded, t: &mut Tape) -> Vec<(&'stat
     for (fi, (_, chunks)) in pieces.frames.iter().enumerate() {
         for pos in 0..=chunks.len() {
             // a chunk placed between an entity and its user data would also be "ignorable" - fine
-            for (ptype, flags) in [(2u16, 0u16), (0, 1), (1, 1), (2, 1), (1, 0xFFFF), (0, 3)] {
+            for (k, (ptype, flags)) in [(2u16, 0u16), (0, 1), (1, 1), (2, 1), (1, 0xFFFF), (0, 3)].into_iter().enumerate() {
                 let mut p = pieces.clone();
-                let c = finish_chunk(color_profile_chunk(ptype, flags, 0x0002_3333), 0, &mut Rng(1)).bytes;
+                // the gamma field takes the values a writer might plausibly leave there: 0, 1.0, 2.2, all ones
+                let gamma = [0x0001_0000u32, 0, 0x0002_3333, 0xFFFF_FFFF, 0x0001_0000, 0x0000_8000][(k + pos + fi) % 6];
+                let c = finish_chunk(color_profile_chunk(ptype, flags, gamma), 0, &mut Rng(1)).bytes;
                 p.frames[fi].1.insert(pos, c);
                 v.push((if ptype == 2 && flags & 1 == 0 { "icc-profile" } else { "fixed-gamma" }, format!("frame {} chunk position {} type {} flags {}", fi, pos, ptype, flags), super::robust::assemble(&p, true)));
             }
